@@ -50,6 +50,36 @@ CHECKS = {
             'of model, environment, agents, components and pools bit-identical.',
             'Exhaustive relative to 4 pool agents (one colliding id) + a probe agent and the listed worlds.',
             'DESIGN.md section 4 C04'),
+    'C05': ('scope', 'exhaustive enumeration of (priority vector, acting system, timestep, action[, second action]) '
+                     'scenarios executed on the real scheduler, per-timestep event-sequence oracle',
+            'Every scenario of the declared product (remove self/earlier/later, clean_up, register higher/equal/lower, '
+            'remove+re-register, replace under the same id) is run for three timesteps and judged by the rules of the '
+            'property (no rerun, no skip, order, removed-before-turn never runs).',
+            'Exhaustive relative to priority vectors of length 2..4 (5) over {1,0,-1} and one (two) actions per timestep.',
+            'DESIGN.md section 4 C05'),
+    'C06': ('hbfs', 'explicit-state BFS to the fixpoint per (completer position, completing timestep) over '
+                    'advance/complete/add/remove histories, lockstep reference',
+            'All reachable states per configuration; in each, single-step, multi-step and error-raising advance '
+            'requests, external completion and registry changes are executed; after completion a full-field snapshot '
+            'must be unchanged by every advance request and the model never reports running again.',
+            'Exhaustive relative to 3 recorders + completer positions first/mid/last/none, tc 0..2, clock horizon.',
+            'DESIGN.md section 4 C06'),
+    'C08': ('hbfs', 'explicit-state BFS to the fixpoint of the position state per (kind, extents, wrap) configuration '
+                    'with an exact-rational oracle; depth-bounded two-agent product',
+            'For every configuration all reachable positions are visited and from each the whole operation menu '
+            '(in-range, boundary, far out-of-range moves; placements and absolute moves inside and one step outside) '
+            'is executed and compared with modular / saturating arithmetic in exact rationals.',
+            'Exhaustive relative to the extent sets and dyadic step sizes listed in the evidence; zero-extent axes '
+            'kept at 0.', 'DESIGN.md section 4 C08'),
+    'C09': ('scope', 'exhaustive enumeration of grid shapes x coordinate triples inside and one step outside',
+            'Every shape with extents 0..3 (0..4) on each axis, line and 2-D worlds: bijection of ids onto 0..cells-1, '
+            'position table round trip, get_cell row identity via a distinguishing cell component, IndexError outside.',
+            'Exhaustive relative to the shape range.', 'DESIGN.md section 4 C09'),
+    'C10': ('scope', 'exhaustive enumeration of shape x centre x representation x radius x kind x return type x '
+                     'centre inclusion x entry point against a distance filter of the position table',
+            'About 1.5e5 (quick) neighbourhood queries, every one compared element-wise and in order with the clipped '
+            'Chebyshev / Manhattan ball computed from the world\'s own position table.',
+            'Exhaustive relative to the shape range; wrap_env=False.', 'DESIGN.md section 4 C10'),
 }
 
 PENDING = {}
